@@ -225,6 +225,28 @@ func c07Check(c *core.Ctx, r *c07Runner, cs c07Case, ref *string) {
 			return
 		}
 	}
+	// (1') RS changed in mid-input from a regex to a single character: the first
+	// `at` records follow the old RS, the rest of the input is split at the new
+	// character taken literally (whatever it means in a regular expression)
+	if cs.Prog == 5 && cs.Spec {
+		r1, t1, _ := c07Spec("regex", cs.RS, cs.Input)
+		var want []c07Rec
+		consumed := 0
+		for i := 0; i < len(r1) && i < cs.At; i++ {
+			want = append(want, c07Rec{i + 1, i + 1, r1[i], t1[i]})
+			consumed += len(r1[i]) + len(t1[i])
+		}
+		if len(r1) >= cs.At {
+			r2, t2, _ := c07Spec("regex", cs.RS2, cs.Input[consumed:])
+			for i := range r2 {
+				want = append(want, c07Rec{len(want) + 1, len(want) + 1, r2[i], t2[i]})
+			}
+		}
+		if w := c07Fmt(want); w != obs {
+			c.Fail("spec-after-rs-change "+sigBase, cs, "got "+obs+" want "+w)
+			return
+		}
+	}
 	// (1) specification splitter
 	if cs.Spec && cs.Prog != 5 {
 		want, wantRT, haveRT := c07Spec(cs.Kind, cs.RS, cs.Input)
@@ -403,6 +425,31 @@ func c07Changes(c *core.Ctx, r *c07Runner, maxLen int) {
 		{"", "x+", []string{"x", "\n", "y"}},
 		{"x+", "", []string{"x", "\n", "y"}},
 		{"x+", "\n", []string{"x", "\n", "y"}},
+	}
+	// regex -> single character that is a regex metacharacter (spec oracle)
+	for _, rs1 := range []string{"x+", "ab"} {
+		for _, rs2 := range []string{"|", ".", "+", "$", "*", "(", "[", "\\", "^", "?", ";"} {
+			alpha := []string{"x", rs2, "y"}
+			if rs1 == "ab" {
+				alpha = []string{"a", "b", rs2}
+			}
+			for n := 2; n <= 5; n++ {
+				enumStrings(alpha, n, func(in string) {
+					if !c.Mine() || c.Expired() {
+						return
+					}
+					c.Add("states", 1)
+					for at := 1; at <= 2; at++ {
+						ref := "\x00unset"
+						for _, mask := range []uint64{0, (uint64(1) << uint(len(in)-1)) - 1} {
+							cs := c07Case{RS: rs1, RS2: rs2, At: at, Input: in, Mask: mask, EmptyAt: -1, ErrAt: -1, Prog: 5, Kind: "change", Spec: true}
+							c07Check(c, r, cs, &ref)
+							c.Add("transitions", 1)
+						}
+					}
+				})
+			}
+		}
 	}
 	ml := maxLen - 1
 	if ml > 6 {
@@ -647,7 +694,7 @@ func init() {
 		ID:    "C07",
 		Level: "model_checking",
 		Rule: "deviation-bounded environment exploration: every input string up to the length bound over a per-RS alphabet x every chunking (2^(n-1)) x 2 EOF styles, " +
-			"plus RS assigned by the program after record 1 or 2 (12 pairs of old/new RS, every chunking, differential oracle only), getline / getline var on stdin and cmd | getline / cmd | getline var on a command's output pipe (inputs up to 4 symbols, every chunking), one empty read / one read error at every position, single split points of longer inputs and 64KiB buffer-edge inputs; " +
+			"plus RS assigned by the program after record 1 or 2 (12 pairs of old/new RS, every chunking, differential oracle; and regex -> each of 11 single characters incl. every regex metacharacter, specification oracle), getline / getline var on stdin and cmd | getline / cmd | getline var on a command's output pipe (inputs up to 4 symbols, every chunking), one empty read / one read error at every position, single split points of longer inputs and 64KiB buffer-edge inputs; " +
 			"a state is one (RS,input), a transition one delivery; distinct = distinct observed record sequences",
 		Assumptions: []string{
 			"bufio.Scanner depends only on the sequence of (n, err) results of Read, so enumerating chunk sequences enumerates pipe timings",
